@@ -327,8 +327,16 @@ func foreignName(t *rapid.T, c *genfont.Case) []byte {
 		}
 		return func(id uint16) bool { return keep[id] }
 	}
-	form := rapid.SampledFrom([]string{"win-only", "mac-only", "both", "both-different", "win-german+mac-english", "win-german-only", "mac-german-only", "win-subset+mac-subset", "win-uk+win-us"}).Draw(t, "nameForm")
+	form := rapid.SampledFrom([]string{"win-only", "mac-only", "both", "both-different", "win-german+mac-english", "win-german-only", "mac-german-only", "win-subset+mac-subset", "win-uk+win-us",
+		"unicode-platform-only", "win-symbol-only", "win-unknown-language", "no-records"}).Draw(t, "nameForm")
 	switch form {
+	case "unicode-platform-only":
+		add(0, 3, 0, "", nil)
+	case "win-symbol-only":
+		add(3, 0, 0x409, "", nil)
+	case "win-unknown-language":
+		add(3, 1, 0x0C00, "", nil)
+	case "no-records":
 	case "win-only":
 		add(3, 1, 0x409, "", nil)
 	case "mac-only":
